@@ -1,8 +1,8 @@
 use super::*;
 use crate::{base::rule::SentinelRule, logging, utils, Error, Result};
-use lazy_static::lazy_static;
+use crate::vsync::lazy_static;
 use std::collections::{HashMap, HashSet};
-use std::sync::{Arc, Mutex, RwLock};
+use crate::vsync::{Arc, Mutex, RwLock};
 
 pub type BreakerGenFn =
     dyn Send + Sync + Fn(Arc<Rule>, Option<Arc<CounterLeapArray>>) -> Arc<dyn CircuitBreakerTrait>;
